@@ -582,7 +582,7 @@ func RuleG2(c *Ctx) {
 						if sig.Recv() != nil {
 							if _, isPtr := sig.Recv().Type().(*types.Pointer); isPtr {
 								if v := globalRoot(sel.X); v != nil && !inOnce(x) {
-									if !(f.Pkg() != nil && f.Pkg().Path() == "sync") && !concurrencySafeType(v.Type()) {
+									if !immutableUse(v.Type(), f) {
 										writes[v] = append(writes[v], fmt.Sprintf("pointer-receiver call %s in %s at %s", f.Name(), c.P.DeclName(fd), c.P.Pos(x.Pos())))
 									}
 								}
@@ -604,15 +604,26 @@ func RuleG2(c *Ctx) {
 	}
 }
 
-func concurrencySafeType(t types.Type) bool {
+// immutableUse: calling pointer-receiver method f on a package-level variable of
+// type t does not change state that later parses can observe. sync.Once.Do and the
+// lock methods only synchronise; compiled regexps and replacers are immutable.
+// Everything else - in particular sync.Map, sync.Pool, atomic values - is shared
+// mutable state: race free, but one parse can then influence another.
+func immutableUse(t types.Type, f *types.Func) bool {
 	if p, ok := t.(*types.Pointer); ok {
 		t = p.Elem()
 	}
-	if n, ok := t.(*types.Named); ok && n.Obj().Pkg() != nil {
-		switch n.Obj().Pkg().Path() + "." + n.Obj().Name() {
-		case "strings.Replacer", "regexp.Regexp", "sync.Once", "sync.Mutex", "sync.RWMutex", "sync.Pool":
-			return true
-		}
+	n, ok := t.(*types.Named)
+	if !ok || n.Obj().Pkg() == nil {
+		return false
+	}
+	switch n.Obj().Pkg().Path() + "." + n.Obj().Name() {
+	case "strings.Replacer", "regexp.Regexp":
+		return true
+	case "sync.Once":
+		return f.Name() == "Do"
+	case "sync.Mutex", "sync.RWMutex":
+		return true
 	}
 	return false
 }
